@@ -25,6 +25,8 @@ mod c05;
 mod c16;
 mod c19;
 mod c18;
+mod c01;
+mod c04;
 mod util;
 
 use std::path::PathBuf;
@@ -89,6 +91,8 @@ fn main() {
         "C16" => c16::run(&cfg, &mut out),
         "C19" => c19::run(&cfg, &mut out),
         "C18" => c18::run(&cfg, &mut out),
+        "C01" => c01::run(&cfg, &mut out),
+        "C04" => c04::run(&cfg, &mut out),
         other => {
             eprintln!("unknown property {}", other);
             std::process::exit(2);
